@@ -177,7 +177,7 @@ func countFar(framed []byte) (far, dfar int) {
 var _ = pbt.Register(pbt.Spec[Case]{
 	Property: "C04", Name: "build-readback",
 	Rule:     "build programs of up to 40 ops (new struct/primitive/bit/void/pointer/composite list/text/data; set data at every width and bit; set list elements; SetPtr with null / orphan (move) / list-member (documented deep copy) / capability / SetNewText / SetData; List.SetStruct; Struct.CopyFrom; SetRoot incl. re-rooting; overwrites) over 5 arena kinds (SingleSegment nil/cap, MultiSegment nil/small first segment, own exact-capacity arena with 0-3 slack words, dirty spare capacity) with a reference model updated alongside; oracle: after every mutating op (half of the cases) and at the end the tree read back through getters equals the model, also for objects not attached to the root; then Marshal/Unmarshal, MarshalPacked/UnmarshalPacked, Encoder/Decoder and PackedEncoder/PackedDecoder(+ReuseBuffer) over drawn reader chunkings read back equal. Non-trivial: >=2 segments with a far or double-far pointer and depth>=2.",
-	Quick:    10000, Thorough: 60000,
+	Quick:    10000, Thorough: 120000,
 	Gen: func(t *rapid.T) Case {
 		c := Case{Prog: build.GenProgram(t, 40), EveryStep: rapid.Bool().Draw(t, "everystep")}
 		n := rapid.IntRange(0, 3).Draw(t, "nchunks")
